@@ -14,7 +14,8 @@ rows = []
 tot_f = tot_t = 0
 for t in sorted((V / "harness/loop_targets").glob("*.json")):
     j = json.loads(t.read_text())
-    tie = V / "lean" / (j["tie_module"].replace(".", "/") + ".lean")
+    topic = j["module"][5:] if j["module"].startswith("Loops") else j["module"]
+    tie = V / "lean" / (j.get("tie_module", f"Proofs.Tie{topic}").replace(".", "/") + ".lean")
     thms = re.findall(r"^theorem (\S+)", tie.read_text(), re.M) if tie.exists() else []
     fns = [f["name"] for f in j["functions"]]
     tot_f += len(fns); tot_t += len(thms)
